@@ -153,6 +153,13 @@ Theorem edit_uploads_only_disturbed : forall chunker,
 Proof. exact edit_uploads_only_disturbed_lemma. Qed.
 Print Assumptions edit_uploads_only_disturbed.
 
+(* the chunk-level `file_sends` above is what the archiver hands over when it processes that file *)
+Theorem file_step_sends : forall tid g a nm m (h : bytes -> id) (chunks : list bytes) a',
+  astep tid g a (Other nm m (map h chunks)) = Some a' ->
+  a_sent a' = a_sent a ++ map (fun c => (Data, c)) (file_sends h g chunks).
+Proof. exact file_step_sends_lemma. Qed.
+Print Assumptions file_step_sends.
+
 (* ------------------------------------------------------------------ non-vacuity *)
 (* the chunker hypotheses are satisfiable by a content-defined chunker (cut after a zero byte) *)
 Theorem chunker_hypotheses_satisfiable : chunker_partition zcut /\ resync_after_common_cut zcut.
